@@ -392,6 +392,8 @@ def monitor(ops, obs):
                 if not (1 <= t <= MAXT):
                     viol.append(('ticket-range', f'ticket {t} outside uint32', {}))
                 sent[t] = (t0, tau)
+                if tau != 0 and ((k == 'S' and op[2] <= 0) or (k == 'W' and op[1] == 0)):
+                    viol.append(('timer-although-timeout-is-off', f'request {t} was created with the timeout switched off (setting {op[2] if k == "S" else op[1]}) but carries a timer of {tau} s', {}))
                 live.add(t)
                 if tau > 0:
                     deadline[t] = t0 + tau
